@@ -698,3 +698,99 @@ func rgIncremental(w *World) {
 		w.violation("panic-cancels-run", run.Decl.Pos(), "no caller.cancel(&ErrPanic{Panic: <recovered value>}) found in task.run's handler")
 	}
 }
+
+// RC3b (C34): the cycle search is exhaustive. checkCycle decides "is the caller reachable from this
+// task through dependency edges" by a breadth-first walk; a cycle that exists must be found no
+// matter which of the tasks on it have already completed (a query that tolerated an earlier cycle
+// error completes while still holding an edge to a pending ancestor). In the callback that visits
+// the dependencies of a node, every path must either enqueue the dependency or be the path on
+// which the dependency is already in the visited map: a further skip condition (completed,
+// cached, same run …) prunes edges a real cycle may run through, and the caller is handed a value
+// with no cycle error. Must-dataflow over the callback: fact "covered" from the enqueue call and
+// from the `ok` edge of the comma-ok lookup of the visited map; every return needs it.
+func rc3bExhaustiveCycleSearch(w *World) {
+	w.rule("RC")
+	cc := w.fn(incRel, "(*task).checkCycle")
+	if cc == nil {
+		return
+	}
+	info := cc.Pkg.TypesInfo
+	var lit *ast.FuncLit
+	ast.Inspect(cc.Decl.Body, func(x ast.Node) bool {
+		c, ok := x.(*ast.CallExpr)
+		if !ok || len(c.Args) != 1 {
+			return true
+		}
+		if s, ok := ast.Unparen(c.Fun).(*ast.SelectorExpr); ok && s.Sel.Name == "Range" {
+			if fl, ok := c.Args[0].(*ast.FuncLit); ok && lit == nil {
+				lit = fl
+			}
+		}
+		return true
+	})
+	if lit == nil {
+		w.undecided("RC3b|checkCycle|callback", cc.Decl.Pos(), "no deps.Range(func…) callback found in checkCycle")
+		return
+	}
+	// the comma-ok variables of map lookups
+	okVars := map[types.Object]bool{}
+	ast.Inspect(lit.Body, func(x ast.Node) bool {
+		as, ok := x.(*ast.AssignStmt)
+		if !ok || len(as.Lhs) != 2 || len(as.Rhs) != 1 {
+			return true
+		}
+		ix, ok := ast.Unparen(as.Rhs[0]).(*ast.IndexExpr)
+		if !ok {
+			return true
+		}
+		if _, isMap := info.TypeOf(ix.X).Underlying().(*types.Map); !isMap {
+			return true
+		}
+		if id, ok := as.Lhs[1].(*ast.Ident); ok {
+			o := info.Defs[id]
+			if o == nil {
+				o = info.Uses[id]
+			}
+			if o != nil {
+				okVars[o] = true
+			}
+		}
+		return true
+	})
+	g := buildCFG(info, lit.Body)
+	d := &Dataflow{G: g, Must: true, Init: Facts{}}
+	d.Transfer = func(n ast.Node, in Facts) Facts {
+		out := in
+		ast.Inspect(n, func(y ast.Node) bool {
+			if c, ok := y.(*ast.CallExpr); ok {
+				if s, ok := ast.Unparen(c.Fun).(*ast.SelectorExpr); ok && (s.Sel.Name == "PushBack" || s.Sel.Name == "PushFront") {
+					out = out.with("covered")
+				}
+			}
+			return true
+		})
+		return out
+	}
+	d.Branch = func(leaf ast.Expr, truth bool, s Facts) Facts {
+		if id, ok := ast.Unparen(leaf).(*ast.Ident); ok && okVars[info.Uses[id]] && truth {
+			return s.with("covered")
+		}
+		return s
+	}
+	d.Run()
+	nRet, bad := 0, 0
+	for _, e := range d.Exits(info, lit.End()) {
+		if e.Kind == "panic" {
+			continue
+		}
+		nRet++
+		if !e.State["covered"] {
+			bad++
+			w.violation("RC3b|checkCycle|skip-path", e.Pos, "the dependency-visiting callback of checkCycle can return without enqueueing the dependency on a path where it was not found in the visited map: edges are pruned from the cycle search, so a cycle running through the skipped task (e.g. one that already completed after tolerating an earlier cycle error) is not reported and the caller gets a value with no ErrCycle")
+		}
+	}
+	w.floor("exits of the checkCycle dependency callback", nRet, 1)
+	if bad == 0 {
+		w.ok("RC3b|checkCycle|exhaustive", lit.Pos(), fmt.Sprintf("on all %d exit(s) of the callback the dependency was enqueued or already visited", nRet))
+	}
+}
